@@ -173,6 +173,14 @@ def c07c(ctx):
         tr = enclosing(r, ast.Try)
         ok = tr is not None and any(contains(h, lambda x: is_call(x, 'self._lock.close')) for h in tr.handlers)
         ctx.check(ok, 'FileLock.unlock:remove-failure-closes', 'if removing the lock file fails the handle is closed instead', un, r)
+    # release-by-unlink happens while the flock is still held: no close() on a path to the remove
+    for r in rems:
+        rn = g.node_for(r)
+        cl = [n for n, x in g.find(lambda x: is_call(x, 'self._lock.close'))]
+        early = [c for c in cl if g.reaches_avoiding(c, rn, no_exc=True)]
+        ctx.check(not early, 'FileLock.unlock:remove-while-held', 'the lock file is removed while the flock is still held (the handle is not closed before the remove)', un, r,
+                  fail='the handle is closed before the lock file is removed: between close and remove another process takes a valid lock on the file that '
+                       'is about to be unlinked, and a third one locks a fresh file -- two holders')
     flag = [s for s in un.walk() if isinstance(s, ast.Assign) and unparse(s.targets[0]) == 'self._locked' and const_value(s.value) is False]
     ctx.check(bool(flag), 'FileLock.unlock:clears-flag', 'unlock() clears _locked (a released lock can be taken again)', un)
     # constructor sites
